@@ -178,7 +178,7 @@ func checkPayloadAgreement(c *core.Ctx, rule string) {
 			}
 			return true
 		})
-		ast.Inspect(d.Function.Body, func(nd ast.Node) bool {
+		core.WalkStack(d.Function.Body, func(nd ast.Node, stack []ast.Node) bool {
 			sel, ok := nd.(*ast.SelectorExpr)
 			if !ok || !payloadFields[sel.Sel.Name] {
 				return true
@@ -200,6 +200,37 @@ func checkPayloadAgreement(c *core.Ctx, rule string) {
 			for _, id := range kinds[k].IDs {
 				if payloadOf[id] == sel.Sel.Name {
 					okField = true
+				}
+			}
+			// a read under a test of the value's own TypeID is a read of the payload that value carries
+			if !okField {
+				tid := core.ExprStr(ix) + ".TypeID"
+				for i := len(stack) - 1; i >= 0 && !okField; i-- {
+					switch g := stack[i].(type) {
+					case *ast.CaseClause:
+						if i == 0 {
+							continue
+						}
+						// the clause's switch is two levels up (SwitchStmt → BlockStmt → CaseClause)
+						for j := i - 1; j >= 0 && j >= i-2; j-- {
+							if sw, ok := stack[j].(*ast.SwitchStmt); ok && sw.Tag != nil && core.ExprStr(sw.Tag) == tid {
+								for _, e := range g.List {
+									if payloadOf[strings.TrimPrefix(core.ExprStr(e), "octosql.TypeID")] == sel.Sel.Name {
+										okField = true
+									}
+								}
+							}
+						}
+					case *ast.IfStmt:
+						if i+1 < len(stack) && stack[i+1] == ast.Node(g.Body) {
+							for id := range payloadOf {
+								cs := core.ExprStr(g.Cond)
+								if payloadOf[id] == sel.Sel.Name && (cs == tid+" == octosql.TypeID"+id || cs == "octosql.TypeID"+id+" == "+tid) {
+									okField = true
+								}
+							}
+						}
+					}
 				}
 			}
 			if !okField {
